@@ -29,7 +29,11 @@ Theorem C12_code_exceptions :
   /\ catches variant_call_handler notfound_error_bases = false
   /\ catches retry_handler [EKeyError] = true /\ catches retry_handler [EAttributeError] = false
   /\ catches retry_handler missing_error_bases = false /\ catches retry_handler notfound_error_bases = false
-  /\ catches own_tag_lookup_handler [EKeyError] = true.
+  /\ catches own_tag_lookup_handler [EKeyError] = true
+  (* value[field] on a non-mapping and hash(tag) of an unhashable value raise TypeError: caught right there, and never
+     by the handlers around the variant call *)
+  /\ catches non_mapping_handler [ETypeError] = true /\ catches hash_handler [ETypeError] = true
+  /\ catches key_lookup_handler [ETypeError] = false /\ catches variant_call_handler [ETypeError] = false.
 Proof. vm_compute. repeat split. Qed.
 Print Assumptions C12_code_exceptions.
 
